@@ -1,5 +1,6 @@
 import CkbVerif.Driver.Util
 import CkbVerif.Model.Indexer
+import CkbVerif.Model.IndexerPool
 import CkbVerif.Lemmas.IndexerWF
 import CkbVerif.Model.RichIndexer
 import CkbVerif.Lemmas.RichIndexer
@@ -13,6 +14,17 @@ structure St where
   store : Store := []
   keep : Nat := 100
   interval : Nat := 1000
+  /-- the tx-pool overlay (`config … p`): `none` = `pool: None` -/
+  pool : Option Pool := none
+
+/-- `MAX_PREFIX_SEARCH_SIZE = u16::MAX` (`util/indexer/src/service.rs`) -/
+def maxPrefixSearchSize : Nat := 65535
+
+/-- what a DESCENDING walk can see: the rows of the searched family above the seek key
+`prefix ‖ 0xff × (MAX_PREFIX_SEARCH_SIZE − args_len)` are never reached (`Lemmas/IndexerPool.lean`:
+`descView_eq` — nothing is hidden while keys are shorter than the seek key) -/
+def viewOf (s : Store) (desc : Bool) (pre : List Nat) (q : Script) : Store :=
+  if desc then descView maxPrefixSearchSize s pre q.args.length else s
 
 /-! ### parsing -/
 
@@ -143,6 +155,13 @@ def showTipAns (s : Store) : String :=
 
 def showTip (s : Store) : String := "tip " ++ showTipAns s
 
+/-- `get_cells_capacity` over snapshot `snap` with the overlay `pool`: sum and tip from the SAME snapshot -/
+def showCapAt (snap : Store) (pool : Pool) (k : Bool) (q : Script) (m : Bool) (f : Filter) : String :=
+  match getCellsCapacityAt snap pool k q m f with
+  | none => "panic"
+  | some none => "cap none"
+  | some (some (c, _)) => s!"cap {c} {showTipAns snap}"
+
 def showCellAns (a : CellAns) : String :=
   s!"{showOp a.op}@{a.cell.bn}.{a.cell.txIdx}:{a.cell.out.cap}:{a.cell.out.data.length}"
 
@@ -160,18 +179,34 @@ def strLe (a b : String) : Bool := !(b < a)
 
 /-! ### interpreter -/
 
-def step (st : St) (ts : List String) : St × String :=
+def opLe (a b : OutPoint) : Bool := a.tx < b.tx || (a.tx = b.tx && a.idx ≤ b.idx)
+
+def showPool : Option Pool → String
+  | none => "pool none"
+  | some p => "pool " ++ joinOr "," ((p.mergeSort opLe).map showOp)
+
+def stepBase (st : St) (ts : List String) : St × String :=
   match ts with
-  | "config" :: k :: i :: _ =>
-    -- further tokens (`b<n> c<n>`: custom filters of the rich stream) do not concern this indexer
+  | "config" :: k :: i :: rest =>
+    -- further tokens: `p` = with the tx-pool overlay; `b<n> c<n>` (custom filters of the rich stream)
+    -- do not concern this indexer
     match parseNat? k, parseNat? i with
-    | some k, some i => ({ st with keep := k, interval := i }, "ok")
+    | some k, some i => ({ st with keep := k, interval := i, pool := if rest.contains "p" then some [] else none }, "ok")
     | _, _ => (st, "bad-op")
+  | ["pnew", tx] =>
+    match parseTx? tx with
+    | some tx => let p := st.pool.map (·.newTx tx); ({ st with pool := p }, showPool p)
+    | none => (st, "bad-op")
+  | ["prej", tx] =>
+    match parseTx? tx with
+    | some tx => let p := st.pool.map (·.removeTx tx); ({ st with pool := p }, showPool p)
+    | none => (st, "bad-op")
+  | ["pdead"] => (st, showPool st.pool)
   | "append" :: num :: hash :: txs =>
     match parseNat? num, parseNat? hash, txs.mapM parseTx? with
     | some num, some hash, some txs =>
       let s := append st.keep st.interval st.store ⟨num, hash, txs⟩
-      ({ st with store := s }, showTip s)
+      ({ st with store := s, pool := st.pool.map (·.committed txs) }, showTip s)
     | _, _, _ => (st, "bad-op")
   | "wf" :: num :: hash :: txs =>
     -- the theorems' well-formedness hypotheses (their decidable forms, `Lemmas/IndexerWF.lean`)
@@ -215,17 +250,17 @@ def step (st : St) (ts : List String) : St × String :=
         match parseMode? mode with
         | some m =>
           if grp = "g" then
-            (st, "txs " ++ showPages ((getTxsGroupedPages st.store k q m f.script f.blockRange o lim (st.store.length + 2) none).map
+            (st, "txs " ++ showPages ((getTxsGroupedPages (viewOf st.store o (txPrefix k q) q) k q m f.script f.blockRange o lim (st.store.length + 2) none).map
               (·.map showTxGroup)))
           else
-            (st, "txs " ++ showPages ((getTxsPages st.store k q m f.script f.blockRange o lim (st.store.length + 2) none).map
+            (st, "txs " ++ showPages ((getTxsPages (viewOf st.store o (txPrefix k q) q) k q m f.script f.blockRange o lim (st.store.length + 2) none).map
               (·.map showTxRow)))
         | none => (st, "bad-op")
     | _, _, _, _, _ => (st, "bad-op")
   | "cells" :: kind :: q :: mode :: order :: limit :: f =>
     match parseKind? kind, parseScript? q, parseMode? mode, parseOrder? order, parseNat? limit, parseFilter? f with
     | some k, some q, some m, some o, some lim, some f =>
-      match getCellsPages st.store k q m f o lim (st.store.length + 2) none with
+      match getCellsPagesP (viewOf st.store o (cellPrefix k q) q) (st.pool.getD []) k q m f o lim (st.store.length + 2) none with
       | some pages => (st, "cells " ++ showPages (pages.map (·.map showCellAns)))
       | none => (st, "panic")
     | _, _, _, _, _, _ => (st, "bad-op")
@@ -234,27 +269,59 @@ def step (st : St) (ts : List String) : St × String :=
           parseOptScript? fs, parseRange? br with
     | some k, some q, some m, some o, some lim, some fs, some br =>
       if grp = "g" then
-        (st, "txs " ++ showPages ((getTxsGroupedPages st.store k q m fs br o lim (st.store.length + 2) none).map
+        (st, "txs " ++ showPages ((getTxsGroupedPages (viewOf st.store o (txPrefix k q) q) k q m fs br o lim (st.store.length + 2) none).map
           (·.map showTxGroup)))
       else
-        (st, "txs " ++ showPages ((getTxsPages st.store k q m fs br o lim (st.store.length + 2) none).map
+        (st, "txs " ++ showPages ((getTxsPages (viewOf st.store o (txPrefix k q) q) k q m fs br o lim (st.store.length + 2) none).map
           (·.map showTxRow)))
     | _, _, _, _, _, _, _ => (st, "bad-op")
   | "cap" :: kind :: q :: mode :: f =>
     match parseKind? kind, parseScript? q, parseMode? mode, parseFilter? f with
     | some k, some q, some m, some f =>
-      match tipAsCode st.store with
-      | .none => (st, "cap none")
-      | _ =>
-        match getCellsCapacity st.store k q m f with
-        | some c => (st, s!"cap {c} {showTipAns st.store}")
-        | none => (st, "panic")
+      (st, showCapAt st.store (st.pool.getD []) k q m f)
     | _, _, _, _ => (st, "bad-op")
   | ["dump"] =>
     let rows := (st.store.map fun (k, v) => showKey k ++ "=" ++ showVal v).mergeSort strLe
     (st, s!"dump {rows.length} " ++ joinOr " " rows)
   | _ => (st, "bad-op")
 
+
+/-- ONE handler call (no cursor) over the snapshot `snap` with the overlay as it is when the handler
+takes the overlay's lock (`pool`): the query half of an `x` op -/
+def queryOnce (snap : Store) (pool : Pool) (ts : List String) : String :=
+  match ts with
+  | "cells" :: kind :: q :: mode :: order :: limit :: f =>
+    match parseKind? kind, parseScript? q, parseMode? mode, parseOrder? order, parseNat? limit, parseFilter? f with
+    | some k, some q, some m, some o, some lim, some f =>
+      match getCellsAt (viewOf snap o (cellPrefix k q) q) pool k q m f o lim none with
+      | some (page, _) => "cells " ++ joinOr "," (page.map showCellAns)
+      | none => "panic"
+    | _, _, _, _, _, _ => "bad-op"
+  | "cap" :: kind :: q :: mode :: f =>
+    match parseKind? kind, parseScript? q, parseMode? mode, parseFilter? f with
+    | some k, some q, some m, some f => showCapAt snap pool k q m f
+    | _, _, _, _ => "bad-op"
+  | ["txs", kind, q, mode, order, limit, grp, fs, br] =>
+    match parseKind? kind, parseScript? q, parseMode? mode, parseOrder? order, parseNat? limit,
+          parseOptScript? fs, parseRange? br with
+    | some k, some q, some m, some o, some lim, some fs, some br =>
+      let v := viewOf snap o (txPrefix k q) q
+      if grp = "g" then "txs " ++ joinOr "," ((getTxsGrouped v k q m fs br o lim none).1.map showTxGroup)
+      else "txs " ++ joinOr "," ((getTxs v k q m fs br o lim none).1.map showTxRow)
+    | _, _, _, _, _, _, _ => "bad-op"
+  | _ => "bad-op"
+
+/-- `x <query> && <writer op>`: the handler takes its snapshot, THEN the writer op runs to completion
+(`service::verif_hook`), then the handler continues: rows, OutPoint lookups and the tip come from the
+snapshot (the store before the writer), the overlay is read after the writer. -/
+def step (st : St) (ts : List String) : St × String :=
+  match ts with
+  | "x" :: rest =>
+    let qp := rest.takeWhile (· ≠ "&&")
+    let mp := (rest.dropWhile (· ≠ "&&")).drop 1
+    let r := stepBase st mp
+    (r.1, queryOnce st.store (r.1.pool.getD []) qp ++ " && " ++ r.2)
+  | _ => stepBase st ts
 
 /-! ### the rich-indexer (SQL) stream: same op language, relational model `Model/RichIndexer.lean` -/
 namespace Rich
@@ -385,11 +452,20 @@ def stepDb (bf cf : Nat) (db : DB) (ts : List String) : DB × String :=
   | ["dump"] =>
     let rows := (dumpRows db).mergeSort strLe
     (db, s!"dump {rows.length} " ++ joinOr " " rows)
+  -- the tx-pool overlay of the rich-indexer is not modelled (no hook): overlay ops are skipped
+  | ["pnew", _] => (db, "pool skipped")
+  | ["prej", _] => (db, "pool skipped")
+  | ["pdead"] => (db, "pool skipped")
   | _ => (db, "bad-op")
 
 def step (st : RSt) (ts : List String) : RSt × String :=
   match ts with
   | "config" :: _ :: _ :: rest => ({ db := {}, bf := filterId 'b' rest, cf := filterId 'c' rest }, "ok")
+  | "x" :: rest =>
+    -- interleaved ops belong to the key-value stream: here only the writer half runs
+    let mp := (rest.dropWhile (· ≠ "&&")).drop 1
+    let r := stepDb st.bf st.cf st.db mp
+    ({ st with db := r.1 }, "x skipped && " ++ r.2)
   | _ =>
     let r := stepDb st.bf st.cf st.db ts
     ({ st with db := r.1 }, r.2)
